@@ -1,6 +1,14 @@
 package main
 
-import "encoding/json"
+import (
+	"encoding/json"
+	"fmt"
+	"reflect"
+	"sort"
+
+	be "github.com/echoface/be_indexer"
+	"github.com/echoface/be_indexer/holder/rangeholder"
+)
 
 const c08Rule = "fault enumeration: seeded documents (1..3 conjunctions over a default, a pattern and a range field, incl. all-negative and empty conjunctions) x every expression position replaced by an unparseable value of that container's kind (default: bool / map / nested list / nil / lists with one unparseable element in last, first or middle position; pattern: integer / list with a non-string; range: non-numeric string, typed and untyped lists with one non-numeric element, ill-typed or reversed between pair, malformed description, unknown operator) x {include, exclude} x {skip, error, panic(recovered)} x {k-groups, compact}, followed by queries that would match the bad conjunction had it left a trace (empty assignment, an assignment hitting its includes and avoiding its excludes) and by ordinary queries; plus documents rejected outright (no conjunction, 256 conjunctions, id out of range). Posting-list contents are compared through the hook. number-range descriptions that only start like a range (trailing text, dangling separator, padded number) as default-holder values and as string between operands; the range container's operand decoding with EnableFloat2Int=false (float operands of > and < must be refused); Non-trivial = the faulty document has another conjunction or a neighbour that some query matches; distinct = distinct input"
 
@@ -216,6 +224,12 @@ func init() {
 				}
 			}
 		},
+		// a range holder registered with EnableFloat2Int = false (the end-to-end model has the stock option only, DESIGN
+		// §10): float operands make the conjunction a bad one -- it must leave no trace, under every policy
+		extra: func(tier string, seed uint64, outdir string) (map[string]interface{}, []string) {
+			calls, viol := rangeNoFloatProbe()
+			return map[string]interface{}{"range_holder_without_float_conversion_retrievals": calls}, viol
+		},
 		exec: func(raw json.RawMessage) (execResult, error) {
 			var probe struct {
 				Cache bool   `json:"cache"`
@@ -231,4 +245,89 @@ func init() {
 			return execE2E(raw)
 		},
 	}
+}
+
+// rangeNoFloatProbe: documents whose first conjunction has a float operand on a field of a range holder registered
+// with EnableFloat2Int = false (`> 18.0`, `< 40.5`, `in []float64{30}`), followed by a good conjunction; the oracle is
+// the DNF of the document WITHOUT its bad conjunction (skip), or without the document (error / panic)
+func rangeNoFloatProbe() (calls int, viol []string) {
+	const name = "verif_ext_range_nf"
+	be.RegisterEntriesHolder(name, func() be.EntriesHolder {
+		o := rangeholder.NewRangeHolderOption()
+		o.EnableFloat2Int = false
+		return rangeholder.NewNumberExtendRangeHolder(rangeholder.WithRangeHolderOption(o))
+	})
+	age, city := fieldName(2), fieldName(0)
+	for _, kind := range []string{"kgroups", "compact"} {
+		for _, pol := range []string{"skip", "error", "panic"} {
+			c := eCase{Kind: kind, Policy: pol}
+			b := newBuilder(&c)
+			b.ConfigField(age, be.FieldOption{Container: name})
+			mk := func(id int64, bad *be.Conjunction, goodCity string) *be.Document {
+				d := be.NewDocument(be.DocID(id))
+				d.AddConjunction(bad, be.NewConjunction().In(city, goodCity))
+				return d
+			}
+			docs := []*be.Document{
+				mk(1, be.NewConjunction().AddBoolExprs(&be.BooleanExpr{Field: age, BoolValues: be.NewBoolValue(be.ValueOptGT, 18.0, true)}), "sh"), // as decoded from JSON
+				mk(2, be.NewConjunction().AddBoolExprs(&be.BooleanExpr{Field: age, BoolValues: be.NewBoolValue(be.ValueOptLT, 40.5, true)}), "sh"),
+				mk(3, be.NewConjunction().In(age, []float64{30}), "bj"),
+				mk(4, be.NewConjunction().NotIn(age, float32(30)).In(city, "gz"), "bj"),
+			}
+			good := be.NewDocument(9)
+			good.AddConjunction(be.NewConjunction().Between(age, 19, 40))
+			accepted := map[int64]bool{}
+			for _, d := range docs {
+				var err error
+				p := safeCall(func() { err = b.AddDocument(d) })
+				switch pol {
+				case "skip":
+					if p || err != nil {
+						viol = append(viol, fmt.Sprintf("%s/%s: AddDocument(%d) must skip the bad conjunction, got panic=%v err=%v", kind, pol, d.ID, p, err))
+					}
+					accepted[int64(d.ID)] = true
+				case "error":
+					if p || err == nil {
+						viol = append(viol, fmt.Sprintf("%s/%s: AddDocument(%d) with a float operand must return an error, got panic=%v err=%v", kind, pol, d.ID, p, err))
+					}
+				case "panic":
+					if !p {
+						viol = append(viol, fmt.Sprintf("%s/%s: AddDocument(%d) with a float operand must panic, got err=%v", kind, pol, d.ID, err))
+					}
+				}
+			}
+			if safeCall(func() { b.AddDocument(good) }) {
+				viol = append(viol, kind+"/"+pol+": the all-integer document was refused")
+			}
+			index := b.BuildIndex()
+			for _, q := range []struct {
+				a    int64
+				city string
+			}{{30, "sh"}, {30, "bj"}, {30, "gz"}, {19, "sh"}, {50, "sh"}, {50, "bj"}, {10, "xx"}, {30, "xx"}} {
+				var want []int64
+				for id, cty := range map[int64]string{1: "sh", 2: "sh", 3: "bj", 4: "bj"} {
+					if accepted[id] && cty == q.city { // only the good conjunction of an accepted document can match
+						want = append(want, id)
+					}
+				}
+				if q.a > 18 && q.a < 40 {
+					want = append(want, 9)
+				}
+				var got be.DocIDList
+				var err error
+				calls++
+				if safeCall(func() { got, err = index.Retrieve(be.Assignments{age: q.a, city: q.city}) }) || err != nil {
+					viol = append(viol, fmt.Sprintf("%s/%s: Retrieve(age=%d, city=%s) failed: %v", kind, pol, q.a, q.city, err))
+					continue
+				}
+				g := docIDs(got)
+				sort.Slice(g, func(i, j int) bool { return g[i] < g[j] })
+				sort.Slice(want, func(i, j int) bool { return want[i] < want[j] })
+				if !reflect.DeepEqual(g, want) && !(len(g) == 0 && len(want) == 0) && len(viol) < 8 {
+					viol = append(viol, fmt.Sprintf("%s/%s: a conjunction with a float operand on a range field without float conversion left a trace: age=%d city=%s -> %v, want %v", kind, pol, q.a, q.city, g, want))
+				}
+			}
+		}
+	}
+	return
 }
